@@ -110,6 +110,14 @@ deriving DecidableEq, Repr
 def Wpa2State.addApData (st : Wpa2State) (ssid pmk : Bytes) : Wpa2State :=
   { st with pmks := insertIfAbsent st.pmks ssid pmk }
 
+/-- `SupplicantData::SupplicantData(psk, ssid)`: `PKCS5_PBKDF2_HMAC_SHA1(psk, psk.size(), ssid, ssid.size(), 4096,
+    pmk_.size() = 32, &pmk_[0])`; PBKDF2-HMAC-SHA1 is a parameter `pbkdf2 password salt iterations octets` -/
+def supplicantPmk (pbkdf2 : Bytes → Bytes → Nat → Nat → Bytes) (psk ssid : Bytes) : Bytes := pbkdf2 psk ssid 4096 32
+
+/-- `add_ap_data(psk, ssid)`: `pmks_.insert(make_pair(ssid, SupplicantData(psk, ssid)))` -/
+def Wpa2State.addApDataPsk (pbkdf2 : Bytes → Bytes → Nat → Nat → Bytes) (st : Wpa2State) (psk ssid : Bytes) : Wpa2State :=
+  st.addApData ssid (supplicantPmk pbkdf2 psk ssid)
+
 /-- `add_access_point(ssid, addr)`; `none` = `runtime_error("Supplicant data not registered")` -/
 def Wpa2State.addAccessPoint (st : Wpa2State) (ssid : Bytes) (addr : Addr) : Option (Wpa2State × List Event) :=
   match lookup st.pmks ssid with
